@@ -80,7 +80,7 @@ Qed.
 (* every operation preserves the invariant *)
 Lemma step_inv w o : inv w -> inv (step w o).
 Proof.
-  intros (Hk & Hh & Ht). destruct o as [k h|h u|h|t|k]; cbn [step].
+  intros (Hk & Hh & Ht). destruct o as [k h|h u|h|t|k|k]; cbn [step].
   - destruct (has_key k (tbl w) || existsb (held_by h) (tbl w)) eqn:E; [now repeat split|].
     apply orb_false_iff in E. destruct E as [E1 E2].
     repeat split; cbn [tbl now map].
@@ -103,6 +103,10 @@ Proof.
     + intros e u Hin Ho. apply filter_In in Hin. destruct Hin as [_ Ha]. unfold alive in Ha. rewrite Ho in Ha.
       now apply N.ltb_lt in Ha.
   - now repeat split.
+  - repeat split; cbn [tbl now].
+    + now apply filter_keys_NoDup.
+    + now apply filter_handles_NoDup.
+    + intros e u Hin Ho. apply filter_In in Hin. destruct Hin as [Hin _]. eauto.
 Qed.
 
 Lemma run_inv_gen ops : forall w, inv w -> inv (fold_left step ops w).
@@ -136,23 +140,25 @@ Proof. intros H. cbn [step]. now rewrite H. Qed.
 
 Lemma step_growth w o : (length (tbl (step w o)) <= S (length (tbl w)))%nat.
 Proof.
-  destruct o as [k h|h u|h|t|k]; cbn [step].
+  destruct o as [k h|h u|h|t|k|k]; cbn [step].
   - destruct (_ || _); cbn [tbl length]; lia.
   - cbn [tbl]. eapply Nat.le_trans; [apply filter_length_le|]. rewrite map_length. lia.
   - cbn [tbl]. eapply Nat.le_trans; [apply filter_length_le|]. lia.
   - cbn [tbl]. eapply Nat.le_trans; [apply filter_length_le|]. lia.
   - lia.
+  - cbn [tbl]. eapply Nat.le_trans; [apply filter_length_le|]. lia.
 Qed.
 
 Lemma only_create_grows w o : (length (tbl w) < length (tbl (step w o)))%nat -> exists k h, o = Create k h /\ has_key k (tbl w) = false.
 Proof.
-  destruct o as [k h|h u|h|t|k]; cbn [step].
+  destruct o as [k h|h u|h|t|k|k]; cbn [step].
   - destruct (has_key k (tbl w)) eqn:E; cbn [orb]; [lia|]. intros _. eauto.
   - cbn [tbl]. pose proof (filter_length_le (alive (now w)) (map (fun e => if held_by h e then mke (e_key e) (Timed u) else e) (tbl w))) as H.
     rewrite map_length in H. lia.
   - cbn [tbl]. pose proof (filter_length_le (fun e => negb (held_by h e)) (tbl w)). lia.
   - cbn [tbl]. pose proof (filter_length_le (alive (N.max t (now w))) (tbl w)). lia.
   - lia.
+  - cbn [tbl]. match goal with |- context [filter ?f (tbl w)] => pose proof (filter_length_le f (tbl w)) end. lia.
 Qed.
 
 (* dropping an object removes its entry at once *)
